@@ -404,6 +404,87 @@ def run(ck):
     ck.floor("C07.G14 functions scanned for attribute reads under isinstance guards", n_fn, 150)
     if not n_hit:
         ck.ok("C07.G14", "run path", "src/", f"{n_fn} functions: every attribute read under an isinstance guard exists on the guarded class(es)")
+    ck.clause("C07.G18", "the worker pool is never sized by the number of molecules without a floor of 1: the second pass legitimately "
+                         "runs on an empty fragment list, and a pool of 0 processes raises ValueError")
+    fn18, call18, mapname18, _, _ = parallel_map_site(ctx)
+    for k18 in call18.keywords:
+        if k18.arg != "num_cpus":
+            continue
+        exprs = [(fn18, k18.value)]
+        for c0 in [x for x in ast.walk(k18.value) if isinstance(x, ast.Call)]:
+            for cal in ctx.cg.resolve_call(fn18, c0):
+                if cal.kind == "fn":
+                    exprs.extend((cal.fn, r.value) for r in ast.walk(cal.fn.node) if isinstance(r, ast.Return) and r.value is not None)
+        bad18 = None
+        for f18, e18 in exprs:
+            for m18 in [x for x in ast.walk(e18) if isinstance(x, ast.Call) and isinstance(x.func, ast.Name) and x.func.id == "min"]:
+                sized = any(isinstance(y, ast.Call) and isinstance(y.func, ast.Name) and y.func.id == "len" for a in m18.args for y in ast.walk(a)) \
+                    or any(isinstance(a, ast.Name) and any(pp.name == a.id for pp in f18.params) for a in m18.args)
+                floored = any(isinstance(y, ast.Call) and isinstance(y.func, ast.Name) and y.func.id == "max" and
+                              any(x is m18 for x in ast.walk(y)) for y in ast.walk(e18))
+                if sized and not floored:
+                    bad18 = (f18, m18)
+        if bad18 is not None:
+            ck.violation("C07.G18", short(fn18) + ":num_cpus", where(bad18[0], bad18[1]),
+                         "the pool size is min(<cpus>, <number of molecules>) without a lower bound: for an empty molecule list (the second "
+                         "pass when nothing is left unaligned, a run where no query is placeable) it is 0 and the pool constructor raises",
+                         found=ast.unparse(bad18[1])[:120], required="max(1, ...) around it, or the configured value as it is")
+        else:
+            ck.ok("C07.G18", short(fn18) + ":num_cpus", where(fn18, call18), "the pool size does not shrink with the number of molecules", ast.unparse(k18.value)[:80])
+    ck.clause("C07.G19", "a correlation is divided element by element only by an array of the same length for every pair of vector "
+                         "lengths: the normalising factor is the same cross-correlation applied to the same reference vector and a vector as "
+                         "long as the query vector (scipy's 'valid' mode exchanges its operands when the second is longer; a hand-written "
+                         "window sum does not, and the lengths disagree for a reference labelled only at its start)")
+    gia = p.find_method("OpticalMap", "getInitialAlignment")
+    # the cross-correlation helper, whatever it is called and wherever it lives: a function whose body calls `correlate`
+    corr_fns = {f.qualname for f in p.nontest_functions() if not f.is_lambda and any(
+        isinstance(c, ast.Call) and (getattr(c.func, "attr", None) == "correlate" or getattr(c.func, "id", None) == "correlate")
+        for c in ast.walk(f.node))}
+    ctx.keep_calls.update(corr_fns)
+
+    def is_corr(t):
+        return (t[0] == "app" and t[1] in corr_fns) or (t[0] == "call" and t[1].endswith("signal.correlate"))
+
+    def corr_args(t):
+        return list(dict(t[3]).values()) if t[0] == "app" else list(t[2])
+    seen19 = set()
+    n19 = 0
+    for pa in explore(ck, gia):
+        for t19, _f, node19, _k in path_terms(pa):
+            for x in T.subterms(t19):
+                if x[0] != "div" or x in seen19 or not is_corr(x[1]):
+                    continue
+                seen19.add(x)
+                n19 += 1
+                num = x[1]
+                na = corr_args(num)
+                ref_v, qry_v = na[0], na[1] if len(na) > 1 else None
+                same = [y for y in T.subterms(x[2]) if is_corr(y)]
+                ok19 = False
+                for y in same:
+                    ya = corr_args(y)[:2]
+                    if len(ya) == 2 and ya[0] == ref_v and ya[1][0] == "call" and ya[1][1] in ("numpy.ones", "numpy.ones_like", "numpy.full") \
+                            and (ya[1][2] and (ya[1][2][0] == T.mk_call("len", [qry_v]) or ya[1][2][0] == qry_v or
+                                               ya[1][2][0] == T.mk_attr(qry_v, "size") or ya[1][2][0] == T.mk_attr(qry_v, "shape"))):
+                        ok19 = True
+                w19 = where(gia, node19)
+                if ok19:
+                    ck.ok("C07.G19", short(gia) + ":normalising-factor", w19, "divided by the same correlation of the reference vector with "
+                          "a vector of the query vector's length", T.show(x[2])[:160])
+                elif same:
+                    raise AnalysisError(f"{w19}: operands of the normalising correlation not recognised: {T.show(x[2])[:200]}")
+                else:
+                    arrays = [y for y in T.subterms(x[2]) if y[0] in ("slice", "call") and "cumsum" in T.show(y)[:400]]
+                    if arrays:
+                        ck.violation("C07.G19", short(gia) + ":normalising-factor", w19,
+                                     "the correlation is divided by a window sum built by slicing a cumulative sum of the reference vector: "
+                                     "its length is len(reference vector) - len(query vector) + 1 and it is empty when the query vector is "
+                                     "the longer one, while scipy's 'valid' correlation exchanges its operands and is not - the division "
+                                     "raises (a reference labelled only at its start, a query longer than that part)",
+                                     found=T.show(x[2])[:240], required="the same correlation applied to (reference vector, ones(len(query vector)))")
+                    else:
+                        raise AnalysisError(f"{w19}: what the correlation is divided by is not recognised: {T.show(x[2])[:200]}")
+    ck.floor("C07.G19 normalised correlations in getInitialAlignment", n19, 1)
     # C07.G13 (persistent state as a cause of aborts) was withdrawn: whether a stale cached array has "another length" than the
     # vector it meets is a run-time quantity; the structural rule (no worker-persistent state at all) fired on changes that leave
     # this property intact (caches keyed completely, id sets, scalars). Such state is C09.3 / C10.1's business, where it is exact.
